@@ -66,4 +66,7 @@ package hooks
 //@   ensures [others] forall sk: iface {KVval[sk]} :: sk != mktEscrowSKey() && sk != hmsk(h) ==> KVhas[sk] == old(KVhas)[sk] && KVval[sk] == old(KVval)[sk]
 //@   ensures [events] EvN >= old(EvN) && (forall j: int :: 0 <= j && j < old(EvN) ==> EvLog[j] == old(EvLog)[j])
 
+// C16: changes caused indirectly through the escrow hooks go through the same keeper operations (each closes only a record
+// that is not yet closed - OnCloseGroup's precondition - and emits exactly its event)
+//@ property C16 := (*hooks).OnEscrowAccountClosed#*, (*hooks).OnEscrowPaymentClosed#*
 //@ property C04 := (*hooks).OnEscrowAccountClosed#*, (*hooks).OnEscrowPaymentClosed#*
